@@ -192,7 +192,7 @@ def random_history(rng):
 
 def run(out):
     rng = random.Random(out.seed)
-    n = 1500 if out.tier == 'quick' else 20000
+    n = 1500 if out.tier == 'quick' else 150000
     cases = [[1, 480, 2, 3, 0, 0, 96, 0, 1, 9, 3, 0, 1, 96, 0, 2, 9],            # add_track, insert, observe, insert, observe
              [1, 480, 0, 1, 96, 0, 1, 9, 0, 1, 200, 0, 2, 9],                     # observe, tracks.append, observe
              [1, 480, 0, 2, 96, 0, 1, 96, 0, 2, 9, 5, 0, 1, 500, 9, 4, 0, 0, 9]]  # observe, edit a time, observe, delete, observe
